@@ -305,6 +305,13 @@ func run(c vrt.Case) vrt.Obs {
 				var pr catalog.PosReport
 				pr.Date = date.Add(time.Duration(r.Intn(1e6)) * time.Minute)
 				lat, lon, speed := (r.Float64()*2-1)*90, (r.Float64()*2-1)*180, float64(r.Intn(400))/8
+				// boundary values of the optional fields: "set" means the pointer is non-nil, whatever the value
+				if fixedSpeeds := []float64{0, math.Copysign(0, -1), 1e-9, 0.5, 999.999}; rep < len(fixedSpeeds) {
+					speed = fixedSpeeds[rep]
+				}
+				if rep < 3 {
+					lat, lon = []float64{0, -0.5, 90}[rep], []float64{0, 0.5, -180}[rep]
+				}
 				if mask&1 != 0 {
 					pr.Lat, pr.Lon = &lat, &lon
 				}
@@ -312,7 +319,11 @@ func run(c vrt.Case) vrt.Obs {
 					pr.Speed = &speed
 				}
 				if mask&4 != 0 {
-					pr.Course, _ = catalog.NewCourse(r.Intn(361), r.Intn(2) == 0)
+					deg := r.Intn(361)
+					if rep < 3 {
+						deg = []int{0, 360, 5}[rep]
+					}
+					pr.Course, _ = catalog.NewCourse(deg, r.Intn(2) == 0)
 				}
 				if mask&8 != 0 {
 					pr.Comment = fmt.Sprintf("comment %d /.-", r.Intn(1000))
